@@ -12,7 +12,7 @@ import (
 var known = ev.Matcher[Case]{}
 
 const rule = "real CLI, SQLite: commands {migrate diff, migrate validate --dev-url, migrate lint, schema apply --to file://schema.sql --dev-url, schema diff file:// -> file://} " +
-	"x dev database {empty file, file with tables+rows+index, file holding only a view, file with a table and a trigger, in-memory} x migration directories / SQL schemas of 1-3 files x 1-3 statements (tables with AUTOINCREMENT, indexes) " +
+	"x dev database {empty file, file with tables+rows+index, file holding only a view, file with a table and a trigger, in-memory} x migration directories / SQL schemas of 1-3 files x 1-3 statements (tables with AUTOINCREMENT, indexes, views incl. view-only prefixes and end states, triggers) " +
 	"with a failing statement at every position or none. Oracle (independent connection, full dump incl. sqlite_master and sqlite_ bookkeeping tables, rows, rowids; directory listing + SHA-256 of every file): " +
 	"non-empty dev => non-zero exit that says the database is not clean, dev dump unchanged; empty dev => dump after == dump before (no object left) whether the command succeeded or failed; " +
 	"directory files unchanged, except that migrate diff may add one file and rewrite atlas.sum. " +
@@ -28,7 +28,7 @@ func TestCheck(t *testing.T) {
 		out, err := checkCase(c)
 		col.Class(fmt.Sprintf("%s/dev=%s/exit=%v", c.Cmd, c.Dev, out.Exit != 0))
 		if out.Executed > 0 || (c.Dev != "empty" && c.Dev != "memory") {
-			col.NonTrivial(fmt.Sprintf("%s|%s|%v|%d", c.Cmd, c.Dev, c.Files, c.FailAt))
+			col.NonTrivial(fmt.Sprintf("%s|%s|%v|%d|%d", c.Cmd, c.Dev, c.Files, c.FailAt, c.Style))
 		}
 		col.Sample(c.Cmd+"/"+c.Dev, c)
 		return err
@@ -45,16 +45,21 @@ func TestCheck(t *testing.T) {
 				for _, n := range sh {
 					total += n
 				}
-				for fail := -1; fail < total; fail++ {
-					if dev != "empty" && fail > 0 && !col.Thorough() {
-						continue // non-empty dev: the command must refuse before replaying anything
-					}
-					i++
-					if !col.Mine(i) {
+				for style := 0; style < 3; style++ {
+					if style > 0 && dev != "empty" && !col.Thorough() {
 						continue
 					}
-					if !ev.Each(col, "enumerated", Case{Cmd: cmd, Dev: dev, Files: sh, FailAt: fail}, check, known) {
-						return
+					for fail := -1; fail < total; fail++ {
+						if dev != "empty" && fail > 0 && !col.Thorough() {
+							continue // non-empty dev: the command must refuse before replaying anything
+						}
+						i++
+						if !col.Mine(i) {
+							continue
+						}
+						if !ev.Each(col, "enumerated", Case{Cmd: cmd, Dev: dev, Files: sh, FailAt: fail, Style: style}, check, known) {
+							return
+						}
 					}
 				}
 			}
@@ -69,6 +74,7 @@ func TestCheck(t *testing.T) {
 			total += k
 		}
 		c.FailAt = rapid.IntRange(-1, total-1).Draw(t, "fail")
+		c.Style = rapid.IntRange(0, 2).Draw(t, "style")
 		return c
 	}
 	ev.Rapid(t, col, "random", col.N(30, 4000), gen, check, known)
